@@ -1174,6 +1174,44 @@ def propagate_container_aliases(fn_node) -> List[str]:
                 if isinstance(x, ast.Name) and isinstance(x.ctx, ast.Store):
                     assigns.setdefault(x.id, []).append(n)
     params = {a.arg for a in fn_node.args.args + fn_node.args.kwonlyargs}
+    # a container built in a local first (``vt = VariableTransformer(..); self.var_transf = vt``): stored directly, the local
+    # then is a plain alias of the attribute like any other
+    attr_store_count: Dict[str, int] = {}
+    for n in ast.walk(fn_node):
+        if isinstance(n, ast.Attribute) and isinstance(n.ctx, ast.Store) and isinstance(n.value, ast.Name) and n.value.id == "self":
+            attr_store_count[n.attr] = attr_store_count.get(n.attr, 0) + 1
+    built_first = []
+    for n in ast.walk(fn_node):
+        for fld in ("body", "orelse", "finalbody"):
+            blk = getattr(n, fld, None)
+            if not (isinstance(blk, list) and len(blk) >= 2 and isinstance(blk[0], ast.stmt)):
+                continue
+            for i in range(len(blk) - 1):
+                a, b = blk[i], blk[i + 1]
+                if (isinstance(a, ast.Assign) and len(a.targets) == 1 and isinstance(a.targets[0], ast.Name) and len(assigns.get(a.targets[0].id, [])) == 1
+                        and a.targets[0].id not in params and a.targets[0].id not in STATE_NAMES and not isinstance(a.value, (ast.Name, ast.Attribute))
+                        and isinstance(b, ast.Assign) and len(b.targets) == 1 and isinstance(b.targets[0], ast.Attribute) and isinstance(b.targets[0].value, ast.Name)
+                        and b.targets[0].value.id == "self" and b.targets[0].attr in CONTAINER_ATTRS and attr_store_count.get(b.targets[0].attr) == 1
+                        and isinstance(b.value, ast.Name) and b.value.id == a.targets[0].id):
+                    built_first.append((blk, a, b))
+    done_first = []
+    for blk, a, b in built_first:
+        name, attr = a.targets[0].id, b.targets[0].attr
+        b.value = a.value
+        blk[:] = [x for x in blk if x is not a]
+        repl = ast.Attribute(value=ast.Name(id="self", ctx=ast.Load()), attr=attr, ctx=ast.Load())
+
+        class RB(ast.NodeTransformer):
+            def visit_Name(self, node):
+                if node.id == name and isinstance(node.ctx, ast.Load):
+                    return ast.copy_location(copy.deepcopy(repl), node)
+                return node
+
+        RB().visit(fn_node)
+        assigns.pop(name, None)
+        done_first.append(name)
+    if done_first:
+        ast.fix_missing_locations(fn_node)
     subst = {}
     for name, sts in assigns.items():
         if name in params or name in STATE_NAMES:
@@ -1191,7 +1229,7 @@ def propagate_container_aliases(fn_node) -> List[str]:
         if vals and len(set(vals)) == 1:
             subst[name] = (sts[0].value, sts)
     if not subst:
-        return []
+        return sorted(done_first)
 
     class R(ast.NodeTransformer):
         def visit_Name(self, node):
@@ -1212,7 +1250,7 @@ def propagate_container_aliases(fn_node) -> List[str]:
     D().visit(fn_node)
     R().visit(fn_node)
     ast.fix_missing_locations(fn_node)
-    return sorted(subst)
+    return sorted(set(subst) | set(done_first))
 
 
 # local names the rules already read as state containers (terms.STATE_ALIASES): left alone
